@@ -899,7 +899,7 @@ int write_msa_msf(struct msa* msa,char* outfile)
                 max_name_len = MACRO_MAX(max_name_len, (int)strnlen( msa->sequences[i]->name,MSA_NAME_LEN));
         }
 
-        aln_len = msa->sequences[0]->len;
+        aln_len = msa->alnlen;
         /* for (j = 0; j <= msa->sequences[0]->len;j++){ */
         /*         aln_len+=  msa->sequences[0]->gaps[j]; */
         /* } */
@@ -936,9 +936,7 @@ int write_msa_msf(struct msa* msa,char* outfile)
         header_index = -1 * (msa->numseq+10);
         ol = lb->lines[lb->num_line];
         //LOG_MSG("Alphabet : %d", msa->L);
-        if(msa->L == ALPHA_defPROTEIN){
-                snprintf(ol->line, line_length,"!!AA_MULTIPLE_ALIGNMENT 1.0");
-        }else if(msa->L == ALPHA_redPROTEIN){
+        if(msa->biotype == ALN_BIOTYPE_PROTEIN){
                 snprintf(ol->line, line_length,"!!AA_MULTIPLE_ALIGNMENT 1.0");
         }else if(msa->L == ALPHA_defDNA){
                 snprintf(ol->line, line_length,"!!NA_MULTIPLE_ALIGNMENT 1.0");
@@ -973,12 +971,12 @@ int write_msa_msf(struct msa* msa,char* outfile)
                 RUN(tlfilename(outfile, &basename));
         }
 
-        written = snprintf(ol->line, line_length," %s  MSF: %d  Type: %c  %s  Check: %d  ..", outfile == NULL ? "stdout" :   basename,aln_len, msa->L == ALPHA_defPROTEIN ? 'P' : 'N', date, GCGMultchecksum(msa));
+        written = snprintf(ol->line, line_length," %s  MSF: %d  Type: %c  %s  Check: %d  ..", outfile == NULL ? "stdout" :   basename,aln_len, msa->biotype == ALN_BIOTYPE_PROTEIN ? 'P' : 'N', date, GCGMultchecksum(msa));
 
         if(written >= line_length){
                 MREALLOC(lb->lines[lb->num_line]->line,sizeof(char) * (written+1));
                 ol = lb->lines[lb->num_line];
-                written = snprintf(ol->line, written+1," %s  MSF: %d  Type: %c  %s  Check: %d  ..", outfile == NULL ? "stdout" : basename,aln_len, msa->L == ALPHA_defPROTEIN ? 'P' : 'N', date, GCGMultchecksum(msa));
+                written = snprintf(ol->line, written+1," %s  MSF: %d  Type: %c  %s  Check: %d  ..", outfile == NULL ? "stdout" : basename,aln_len, msa->biotype == ALN_BIOTYPE_PROTEIN ? 'P' : 'N', date, GCGMultchecksum(msa));
 
         }
 
@@ -1011,7 +1009,7 @@ int write_msa_msf(struct msa* msa,char* outfile)
                                    max_name_len,max_name_len,
                                    msa->sequences[i]->name ,
                                    aln_len,
-                                   GCGchecksum(msa->sequences[i]->seq, msa->sequences[i]->len),
+                                   GCGchecksum(msa->sequences[i]->seq, aln_len),
                                    1.0);
                 if(written >= line_length){
                         MREALLOC(lb->lines[lb->num_line]->line,sizeof(char) * (written+1));
@@ -1020,7 +1018,7 @@ int write_msa_msf(struct msa* msa,char* outfile)
                                            max_name_len,max_name_len,
                                            msa->sequences[i]->name ,
                                            aln_len,
-                                           GCGchecksum(msa->sequences[i]->seq, msa->sequences[i]->len),
+                                           GCGchecksum(msa->sequences[i]->seq, aln_len),
                                            1.0);
                 }
                 ol->block = -1;
